@@ -810,6 +810,12 @@ inline std::string classify_stderr(const std::string& path, int status)
             msg = line;
             break;
         }
+        if (line.find("VERIF-HUGE") != std::string::npos)
+        {
+            kind = "ALLOC_HUGE";
+            msg = line;
+            break;
+        }
         if (line.find("VERIF-INFRA") != std::string::npos)
         {
             kind = "INFRA";
